@@ -160,7 +160,7 @@ type heldVal struct {
 
 func runC14Alias(c *Ctx) {
 	part, parts := c.ArgInt("part", 0), c.ArgInt("parts", 1)
-	total := c.Pick(300, 6000)
+	total := c.Pick(1500, 6000)
 	if c.Arg("heavy", "") == "1" {
 		total = 30000
 	}
@@ -282,6 +282,9 @@ func c14RandOp(r interface{ Intn(int) int }) model.TOp {
 		if r.Intn(6) == 0 {
 			return model.TOp{Kind: "Wipe"}
 		}
+		if r.Intn(2) == 0 {
+			return model.TOp{Kind: "String"} // the debugging dump reads every structure: watched by the race detector
+		}
 		return model.TOp{Kind: "Me"}
 	default:
 		return model.TOp{Kind: "GetNick", A: []string{n()}}
@@ -290,7 +293,7 @@ func c14RandOp(r interface{ Intn(int) int }) model.TOp {
 
 func isMutator(k string) bool {
 	switch k {
-	case "GetNick", "GetChannel", "IsOn", "Me":
+	case "GetNick", "GetChannel", "IsOn", "Me", "String":
 		return false
 	}
 	return true
@@ -341,7 +344,7 @@ func trackerPorcupineModel(init *model.TModel) porcupine.Model {
 }
 
 func runC14Conc(c *Ctx) {
-	total := c.Pick(250, 12000)
+	total := c.Pick(1500, 20000)
 	procs := c.Arg("procs", "?")
 	salt := c.Arg("salt", "")
 	clock := rig.NewLog()
